@@ -275,6 +275,66 @@ fn c19_units(tier: Tier) -> Vec<Unit> {
             restore_regs(ctx);
         },
     ));
+    // ---- nothing but the kind and the area's bus settings: other registers, pin levels and the state count are inert
+    units.push(Unit::new(
+        "other-state-independence",
+        16,
+        "for each of 16 uniform background values written (through Bus::write) into every I/O register that is neither a bus-controller nor a port nor a timer register x external pin levels of all ports {00, ff} x port directions {all inputs, all outputs} x the state count in {every value 0-8192, 2^16, 2^20 - 1 .. 2^20 + 3, 2^21, 2^24 + 1, 2^32 + 1}: the cost of a word cycle at one address of every area and of on-chip RAM (state counts above 8192: 3 kinds x 3 settings) equals the closed form",
+        move |ctx, chunk| {
+            let b = crate::hv::dom::K16[chunk as usize];
+            let regs: Vec<u32> = (mach::IO1_LO..=mach::IO1_HI).chain(mach::IO2_LO..=mach::IO2_HI).filter(|a| ![ABWCR, ASTCR, WCRH, WCRL, DRCRA].contains(a) && !sem::is_port_reg(*a) && !sem::is_timer_reg(*a)).collect();
+            for &a in regs.iter() {
+                let _ = ctx.m.cpu.bus.write(a, b);
+            }
+            let probes: Vec<u32> = (0..8u32).map(|a| (a << 21) + 0x1234).chain([0xffe000u32]).collect();
+            let settings = [
+                BusRegs { abwcr: 0xff, astcr: 0xfb, wcrh: 0xff, wcrl: 0xcf, drcra: 0xe0 },
+                BusRegs { abwcr: 0x55, astcr: 0xff, wcrh: 0x1b, wcrl: 0xe4, drcra: 0x20 },
+                BusRegs { abwcr: 0x00, astcr: 0xaa, wcrh: 0xe4, wcrl: 0x1b, drcra: 0x00 },
+            ];
+            let big: [u64; 10] = [1 << 16, (1 << 20) - 1, 1 << 20, (1 << 20) + 1, (1 << 20) + 2, (1 << 20) + 3, 1 << 21, (1 << 24) + 1, (1u64 << 32) + 1, (1u64 << 32) + (1 << 20)];
+            'outer: for pins in [0x00u8, 0xff] {
+                for ddr in [0x00u8, 0xff] {
+                    for p in 1..=11u8 {
+                        let _ = ctx.m.cpu.bus.write(0xfee000 + p as u32 - 1, ddr);
+                        ctx.m.cpu.bus.write_port(p, pins);
+                    }
+                    for (si, r) in settings.iter().enumerate() {
+                        set_regs(ctx, r);
+                        let counts: Vec<u64> = if si == 0 { (0..=8192u64).chain(big.iter().copied()).collect() } else { big.to_vec() };
+                        for s in counts {
+                            ctx.m.cpu.bus.cpu_state_sum = s as usize;
+                            ctx.m.cpu.vh_set_state_sum(s as usize);
+                            let kinds: &[char] = if s > 8192 { &['I', 'L', 'M'] } else { &['M'] };
+                            for &addr in probes.iter() {
+                                for &k in kinds {
+                                    if !c19_eval_current(ctx, r, k, 1, addr) {
+                                        if let Some(v) = ctx.st.violations.last_mut() {
+                                            v.case["other_state"] = json!({"background": b, "pins": pins, "ddr": ddr, "state_count": s});
+                                        }
+                                    }
+                                    if ctx.stop {
+                                        break 'outer;
+                                    }
+                                }
+                            }
+                        }
+                    }
+                }
+            }
+            // back to a clean machine
+            ctx.m.cpu.bus.cpu_state_sum = 0;
+            ctx.m.cpu.vh_set_state_sum(0);
+            for p in 1..=11u8 {
+                let _ = ctx.m.cpu.bus.write(0xfee000 + p as u32 - 1, 0);
+                ctx.m.cpu.bus.write_port(p, 0);
+                let _ = ctx.m.cpu.bus.write(0xffffd0 + p as u32 - 1, 0);
+            }
+            restore_regs(ctx);
+            ctx.m.cpu.vh_module_manager_restore(crate::modules::ModuleManager::new());
+            ctx.m.fill_pristine();
+        },
+    ));
     // ---- histories of evaluations: the cost of a cycle must not depend on which address was costed before
     units.push(Unit::new(
         "address-histories",
@@ -425,6 +485,22 @@ pub fn replay_c19(ctx: &mut Ctx, case: &Value) -> bool {
         }
     } else {
         set_regs(ctx, &r);
+    }
+    if case["other_state"].is_object() {
+        let o = &case["other_state"];
+        let b = o["background"].as_u64().unwrap_or(0) as u8;
+        let regs: Vec<u32> = (mach::IO1_LO..=mach::IO1_HI).chain(mach::IO2_LO..=mach::IO2_HI).filter(|a| ![ABWCR, ASTCR, WCRH, WCRL, DRCRA].contains(a) && !sem::is_port_reg(*a) && !sem::is_timer_reg(*a)).collect();
+        for &a in regs.iter() {
+            let _ = ctx.m.cpu.bus.write(a, b);
+        }
+        for p in 1..=11u8 {
+            let _ = ctx.m.cpu.bus.write(0xfee000 + p as u32 - 1, o["ddr"].as_u64().unwrap_or(0) as u8);
+            ctx.m.cpu.bus.write_port(p, o["pins"].as_u64().unwrap_or(0) as u8);
+        }
+        set_regs(ctx, &r);
+        let s = o["state_count"].as_u64().unwrap_or(0) as usize;
+        ctx.m.cpu.bus.cpu_state_sum = s;
+        ctx.m.cpu.vh_set_state_sum(s);
     }
     if let Some(a1) = case["costed_before"]["addr"].as_str() {
         let k1 = case["costed_before"]["kind"].as_str().unwrap_or("J").chars().next().unwrap_or('J');
